@@ -594,7 +594,7 @@ impl Builder {
             dr::Operand::ExecutionMode(execution_mode),
         ];
         for v in params.as_ref() {
-            operands.push(dr::Operand::LiteralBit32(*v));
+            operands.push(dr::Operand::IdRef(*v));
         }
 
         let inst = dr::Instruction::new(spirv::Op::ExecutionModeId, None, None, operands);
